@@ -2,3 +2,4 @@ import PPModel.Base.Sexp
 import PPModel.Mod.LineCol
 import PPModel.Driver.LineCol
 import PPModel.Mod.Threads
+import PPModel.Driver.Threads
